@@ -26,7 +26,8 @@ RULE = ("models: ThresholdOptimizer fits from the C04 generators (all constraint
         "rows and non-decreasing in the score without flip; predict in {0,1} (regression: a value of a positive-weight predictor); "
         "frequencies over S seeds (300 quick / 2000 thorough) against the pmf with Hoeffding bounds sized for a total false-alarm "
         "probability <= 1e-9 per run; exact reproducibility for a repeated seed; RNG fault injection: a RandomState whose uniform "
-        "draws are the extremes 0.0 and 1-2^-53 - rows with p=1 must give 1 and rows with p=0 must give 0. distinct = distinct "
+        "draws are the extremes 0.0 and 1-2^-53 (an icontract postcondition on the three _pmf_predict methods re-checks pmf validity on "
+        "every call, also while the repository's post-processing tests run as extra traffic) - rows with p=1 must give 1 and rows with p=0 must give 0. distinct = distinct "
         "(model kind, constraint/moment, n, #groups, #support, flags); non-trivial = some row has 0<p<1.")
 ASSUMPTIONS = ["no assumption on how many random numbers are drawn or in which order", "Hoeffding bounds: two-sided, union bound over all "
                "frequency tests of the run (at most 2e6)"]
@@ -59,9 +60,16 @@ def hoeffding_eps(S):
     return math.sqrt(math.log(2.0 / delta) / (2.0 * S))
 
 
+def setup(tier, seed):
+    from vf.monitors import contracts
+
+    contracts.attach()
+
+
 def cases(tier, seed):
     k = 1 if tier == "quick" else 12
-    return [("thresholder", i) for i in range(70 * k)] + [("eg_class", i) for i in range(48 * k)] + [("eg_regr", i) for i in range(24 * k)]
+    return [("thresholder", i) for i in range(70 * k)] + [("eg_class", i) for i in range(48 * k)] + [("eg_regr", i) for i in range(24 * k)] + \
+        [("repo_tests", ["test/unit/postprocessing/test_threshold_optimizer_multiple_sensitive_features.py"] if tier == "quick" else ["test/unit/postprocessing"])]
 
 
 def n_seeds(tier):
@@ -118,13 +126,19 @@ def sampling_checks(ctx, predict, p, S, wit, label):
 
 
 def run_case(cls, key, seed, ctx):
+    from vf.monitors import contracts
+
+    if cls == "repo_tests":
+        return contracts.repo_tests_case(ctx, "C10:", key)
     rng = rng_for(seed, ID, cls, key)
     S = n_seeds(ctx.tier)
     if cls == "thresholder":
-        return run_thresholder(ctx, rng, S)
-    if cls == "eg_class":
-        return run_eg_class(ctx, rng, S)
-    return run_eg_regr(ctx, rng, S)
+        run_thresholder(ctx, rng, S)
+    elif cls == "eg_class":
+        run_eg_class(ctx, rng, S)
+    else:
+        run_eg_regr(ctx, rng, S)
+    contracts.flush_into(ctx, "C10:")
 
 
 def run_thresholder(ctx, rng, S):
